@@ -310,8 +310,143 @@ func round6(w *World, r *Report, prop string) {
 		r.guard("R04.24", func() { r6StartsWithXML(w, r, "R04.24") })
 		r.Rule("R04.25", "Number ::= '.' Digits: after a '.', CommonLex.LexDot hands over to the number lexer exactly when the next rune is one of the ten digits", 1)
 		r.guard("R04.25", func() { r6LexDotDigits(w, r, "R04.25") })
+	case "C08":
+		r.Rule("R08.16", "comments are skipped, not glued to what follows: lexComment and lexCommentLine call ignore() on every path that hands back to the statement scanner", 2)
+		r.guard("R08.16", func() { r6CommentsDiscarded(w, r, "R08.16") })
+		r.Rule("R08.17", "the argument reported for a statement is its own: the key under which ArgInterner.Intern shares arguments keeps statement kind and argument text apart (same analysis as R10.12)", 1)
+		r.guard("R08.17", func() { c10InternerKey(w, r, "R08.17") })
+	case "C10":
+		r.Rule("R10.13", "a piece's continuation lines are stripped relative to its own opening quote: when trimWhitespace runs, the last token read is the piece's closing quote (same analysis as R08.15) — otherwise the decoded argument depends on what follows the piece (a later piece with the same text, a comment)", 1)
+		r.guard("R10.13", func() { c08ClosingQuoteLast(w, r, "R10.13") })
+		r.Rule("R10.14", "comments are trivia: lexComment and lexCommentLine call ignore() on every path that hands back to the statement scanner (same analysis as R08.16) — otherwise a `//` line before a token in column 0 changes that token", 2)
+		r.guard("R10.14", func() { r6CommentsDiscarded(w, r, "R10.14") })
+	case "C06":
+		r.Rule("R06.9", "runs share nothing but the frozen machine: the xpath packages have no package-level channel, sync.Pool or sync.Map (a free list hands a map or buffer of one run to another run while the first may still read it)", 1)
+		r.guard("R06.9", func() { r6NoHandOver(w, r, "R06.9") })
 	case "C05":
 		r.Rule("R05.14", "every loop of the evaluator ends: no loop in package xpath is counted with a floating-point variable stepped by addition (beyond 2^53 the step is lost and the loop never ends)", 1)
 		r.guard("R05.14", func() { r6NoFloatCounter(w, r, "R05.14") })
 	}
+}
+
+// r6NoHandOver (R06.9): no package-level channel, pool or synchronised map in
+// the xpath packages — such an object hands values from one run to another.
+func r6NoHandOver(w *World, r *Report, rule string) {
+	var carries func(t types.Type, seen map[types.Type]bool) string
+	carries = func(t types.Type, seen map[types.Type]bool) string {
+		if seen[t] {
+			return ""
+		}
+		seen[t] = true
+		if n, ok := t.(*types.Named); ok && n.Obj().Pkg() != nil && n.Obj().Pkg().Path() == "sync" {
+			switch n.Obj().Name() {
+			case "Pool", "Map":
+				return "sync." + n.Obj().Name()
+			}
+		}
+		switch u := t.Underlying().(type) {
+		case *types.Chan:
+			return "a channel"
+		case *types.Pointer:
+			return carries(u.Elem(), seen)
+		case *types.Slice:
+			return carries(u.Elem(), seen)
+		case *types.Array:
+			return carries(u.Elem(), seen)
+		case *types.Map:
+			if s := carries(u.Key(), seen); s != "" {
+				return s
+			}
+			return carries(u.Elem(), seen)
+		case *types.Struct:
+			for i := 0; i < u.NumFields(); i++ {
+				if s := carries(u.Field(i).Type(), seen); s != "" {
+					return s
+				}
+			}
+		}
+		return ""
+	}
+	n := 0
+	for _, key := range c06XPathKeys {
+		p := w.Pkg(key)
+		sc := p.Types.Scope()
+		for _, name := range sc.Names() {
+			v, ok := sc.Lookup(name).(*types.Var)
+			if !ok || isTestFile(w, v.Pos()) {
+				continue
+			}
+			n++
+			if what := carries(v.Type(), map[types.Type]bool{}); what != "" {
+				r.Fail(rule, key+"."+nm(v), v.Pos(), "package-level variable of the evaluator holds "+what+": values (maps, buffers) pass from one run to another run that may still be using them — concurrent runs of machines are no longer independent")
+			}
+		}
+	}
+	r.Check(n > 0, rule, "package-level variables of the xpath packages", token.NoPos, fmt.Sprintf("%d variables, none is a channel, pool or synchronised map", n), "no package-level variable found")
+}
+
+// r6CommentsDiscarded (R08.16 / R10.14): a comment scanner throws away what it
+// scanned before it hands back to the statement scanner, on every path.
+func r6CommentsDiscarded(w *World, r *Report, rule string) {
+	ignore := w.SSAFunc(w.Method("parse", "lexer", "ignore"))
+	errorf := w.SSAFunc(w.Method("parse", "lexer", "errorf"))
+	if ignore == nil {
+		panic(undecided{"lexer.ignore"})
+	}
+	for _, name := range []string{"lexComment", "lexCommentLine"} {
+		f := w.SSAFunc(w.Func("parse", name))
+		if f == nil {
+			panic(undecided{"parse." + name})
+		}
+		var at []*ssa.BasicBlock
+		for _, g := range bodiesDeep(f, 1) {
+			if g != f {
+				continue
+			}
+			for _, b := range g.Blocks {
+				for _, in := range b.Instrs {
+					if c, ok := in.(*ssa.Call); ok && c.Call.StaticCallee() == ignore {
+						at = append(at, b)
+					}
+				}
+			}
+		}
+		bad := token.NoPos
+		nret := 0
+		for _, b := range f.Blocks {
+			ret, ok := b.Instrs[len(b.Instrs)-1].(*ssa.Return)
+			if !ok || len(ret.Results) != 1 {
+				continue
+			}
+			if c, isC := ret.Results[0].(*ssa.Call); isC && c.Call.StaticCallee() == errorf {
+				continue // the scan failed: the lexer stops
+			}
+			nret++
+			covered := false
+			for _, ib := range at {
+				if ib == b || ib.Dominates(b) {
+					covered = true
+				}
+			}
+			if !covered {
+				bad = ret.Pos()
+				if !bad.IsValid() {
+					bad = f.Pos()
+				}
+			}
+		}
+		if nret == 0 {
+			panic(undecided{name + ": no return to the statement scanner"})
+		}
+		r.Check(!bad.IsValid(), rule, name+" discards the comment", firstValid(bad, f.Pos()), "ignore() before every hand-back", "a path hands back to the statement scanner with the comment text still pending: it is glued to the next token (a keyword in column 0 becomes `// c\\nleaf`, a quoted string is reported unterminated)")
+	}
+}
+
+func firstValid(ps ...token.Pos) token.Pos {
+	for _, p := range ps {
+		if p.IsValid() {
+			return p
+		}
+	}
+	return token.NoPos
 }
